@@ -31,7 +31,7 @@ META = {
 
 KF_MANIFEST = "kf_dry_manifest_also_rewritten"
 
-OPTIONS = [[], [], ["--max-workers", "2"], ["--path-exclude", "lib/*"], ["--path-include", "*.py", "--path-include", "src/**"],
+OPTIONS = [[], [], ["--max-workers", "2"], ["--path-exclude", "lib/*"], ["--path-include", "a.py,src/**,setup.py"],
            ["--verbose"], ["--max-workers", "4", "--path-exclude", "e.py"]]
 
 
@@ -121,12 +121,17 @@ def evaluate(ctx, R, case, a, b, before, dry, real):
     files = rc.py_files(case["files"])
     selected = set(real_rows[0]["changed"]) | set(dry_rows[0]["changed"]) if real_rows else set()
     # files excluded by options never reach the codemod: keep only the files the run could select
-    inc = [case["options"][i + 1] for i, o in enumerate(case["options"]) if o == "--path-include"]
-    exc = [case["options"][i + 1] for i, o in enumerate(case["options"]) if o == "--path-exclude"]
+    # comma-separated lists (cli.CsvListAction); a repeated option replaces the earlier value
+    inc = [p for i, o in enumerate(case["options"]) if o == "--path-include" for p in case["options"][i + 1].split(",")]
+    exc = [p for i, o in enumerate(case["options"]) if o == "--path-exclude" for p in case["options"][i + 1].split(",")]
     import fnmatch
     sel = [f for f in files if (not inc or any(fnmatch.fnmatch(f, p) for p in inc)) and not any(fnmatch.fnmatch(f, p) for p in exc)]
-    manifest_changed = [m for m in case["manifests"] if real_tree.get(m) != case["files"][m].encode()]
     dep = rc.DEPS.get(k)
+    # a manifest "received the dependency" iff the requirement's name appears in it after the real run and did not before
+    # (a setup.py may also change as a plain source file)
+    manifest_changed = [m for m in case["manifests"]
+                        if dep and dep.lower() in real_tree.get(m, b"").decode(errors="replace").lower()
+                        and dep.lower() not in case["files"][m].lower()]
     depid = [A.content("dep:" + dep)] if (dep and manifest_changed) else []
     T = []
     stores_paths = set(case["manifests"])
@@ -135,7 +140,7 @@ def evaluate(ctx, R, case, a, b, before, dry, real):
         # set alone, which the real tree no longer shows; the model is then fed from the dry report's row only (see below)
         if f in manifest_changed:
             continue
-        if real_tree[f] != case["files"][f].encode():
+        if real_tree.get(f) != case["files"][f].encode():
             T.append((A.content(case["files"][f]), A.content(real_tree[f]), depid))
     overlap = [m for m in manifest_changed if m in sel and any(m == p for r in real_rows for p in r["changed"][:-1])]
     if overlap:
